@@ -368,7 +368,12 @@ func (e *evalCtx) local(name string) (sval, bool) {
 			return
 		}
 		if _, def := t.vals[v]; !def {
-			if _, isConst := v.(*ssa.Const); !isConst {
+			_, isConst := v.(*ssa.Const)
+			overridden := false
+			if phi, isPhi := v.(*ssa.Phi); isPhi {
+				_, overridden = e.phi[phi]
+			}
+			if !isConst && !overridden {
 				return
 			}
 		}
@@ -523,7 +528,7 @@ func (e *evalCtx) indexExpr(x *sx) sval {
 	switch u := base.typ.Underlying().(type) {
 	case *types.Slice:
 		hv := e.t.elemHV(u.Elem())
-		return e.mk(sel(sel(e.t.h.get(e.elemState(base), hv), "(sl_arr "+base.term+")"), "(+ (sl_off "+base.term+") "+i.term+")"), u.Elem())
+		return e.mk(sel(sel(e.t.h.get(e.elemState(base), hv), "(sl_arr "+base.term+")"), "(ix (sl_off "+base.term+") "+i.term+")"), u.Elem())
 	case *types.Map:
 		_, val, _ := e.t.mapHVs(u)
 		return e.mk(sel(sel(e.t.h.get(e.elemState(base), val), base.term), i.term), u.Elem())
@@ -884,7 +889,7 @@ func (e *evalCtx) seqEq(a, b sval) string {
 	aa := sel(t.h.get(e.elemState(a), hv), "(sl_arr "+a.term+")")
 	ba := sel(t.h.get(e.elemState(b), hv), "(sl_arr "+b.term+")")
 	j := q(t.c.fresh("j"))
-	return fmt.Sprintf("(and (= (sl_len %s) (sl_len %s)) (forall ((%s Int)) (=> (and (<= 0 %s) (< %s (sl_len %s))) (= (select %s (+ (sl_off %s) %s)) (select %s (+ (sl_off %s) %s))))))",
+	return fmt.Sprintf("(and (= (sl_len %s) (sl_len %s)) (forall ((%s Int)) (=> (and (<= 0 %s) (< %s (sl_len %s))) (= (select %s (ix (sl_off %s) %s)) (select %s (ix (sl_off %s) %s))))))",
 		a.term, b.term, j, j, j, a.term, aa, a.term, j, ba, b.term, j)
 }
 
